@@ -16,6 +16,14 @@ import (
 // VerifRoot is /verif (evidence, known findings, replay artefacts live below it).
 var VerifRoot = "/verif"
 
+func init() {
+	// ./check exports the directory it lives in, so a copy of /verif elsewhere is self-contained
+	if r := os.Getenv("VERIF_ROOT"); r != "" {
+		VerifRoot = r
+		SpecDir = filepath.Join(r, "spec")
+	}
+}
+
 // Ctx is the context of one check run.
 type Ctx struct {
 	ID      string
